@@ -247,8 +247,8 @@ def _main(P, tier, seed):
                 if f["case"] is None or not bd.get(f["build"]):
                     continue
                 cur = f
-                for _round in range(12):
-                    cand = list(shr(cur["case"]))[:120]
+                for _round in range(getattr(P, 'SHRINK_ROUNDS', 60)):
+                    cand = list(shr(cur["case"]))[:160]
                     if not cand:
                         break
                     outs = run_impl(P.IMPL, bd[cur["build"]], cand)
